@@ -789,6 +789,23 @@ def readRecord (len : Int) (circular : Bool) (bios : List Bio) : E Rec := do
   let r ← (post.filter (·.type == "region")).foldlM (fun r b => do addReg r (← Reg.fromBio r b)) r
   (post.filter (·.type == "aSModule")).foldlM (fun r b => do pure { r with others := r.others ++ [← plainFromBio b] }) r
 
+/-! ### the taxon
+
+  `Record.from_biopython(seq_record, taxon)`: `can_be_circular = taxon == "bacteria"` gates the NCBI Pfam clean-up of
+  `misc_feature` locations (and the exon-order convention check of `ensure_valid_locations` on input genes, which is
+  not part of this model).  The refusal of an origin-spanning exon in a *linear* record looks at the record's own
+  topology, not at the taxon.  `readRecord` above is the bacterial reading. -/
+
+def readStepT (bacteria : Bool) (acc : Rec × List Bio) (b0 : Bio) : E (Rec × List Bio) :=
+  if linearSpan acc.1 b0 then throw "value-error" else dispatch acc (if bacteria then prefilter b0 else b0)
+
+/-- `Record.from_biopython` for either kind of taxon -/
+def readRecordT (bacteria : Bool) (len : Int) (circular : Bool) (bios : List Bio) : E Rec := do
+  let (r, post) ← bios.foldlM (readStepT bacteria) (({ len := len, circular := circular } : Rec), [])
+  let r ← (candOrder (post.filter (·.type == "cand_cluster"))).foldlM (fun r b => do addCand r (← Cand.fromBio r b)) r
+  let r ← (post.filter (·.type == "region")).foldlM (fun r b => do addReg r (← Reg.fromBio r b)) r
+  (post.filter (·.type == "aSModule")).foldlM (fun r b => do pure { r with others := r.others ++ [← plainFromBio b] }) r
+
 /-! ### prepeptides: the location is written as leader / core / tail and rebuilt from them
 
   `Prepeptide.to_biopython` cuts the location with `get_sub_location_from_protein_coordinates`
